@@ -176,7 +176,7 @@ func (m *model) crossCheck(t fataler, lookup func(string) string, reverse func(s
 func (m *model) record(extraClasses ...string) {
 	cls := append([]string{"impl:" + m.impl}, extraClasses...)
 	if m.nt {
-		cls = append(cls, "nt:reuse-by-other")
+		cls = append(cls, "nt:reuse-by-other", "nt:reuse-by-other/"+m.impl)
 	}
 	ops := m.ops
 	vstat.Case(m.nt, vstat.Hash(m.impl, strings.Join(ops, ";")), func() any {
